@@ -4,6 +4,12 @@ from .core import Prop, cq_N, cq_list, cq_opt, cq_bool
 KIND = {"c": "Counter", "g": "Gauge", "h": "Histogram"}
 
 
+def uval(rng):
+    """update value: a third of the updates leave the value unchanged (increment(0), set(0) on a
+    zero gauge) - an update all the same, which must reset the idle clock"""
+    return 0 if rng.chance(1, 3) else rng.below(50)
+
+
 class C12(Prop):
     pid = "C12"
     pkg = "hcore"
@@ -171,7 +177,7 @@ class C12(Prop):
             for _ in range(rng.range(2, 30)):
                 r = rng.below(10)
                 if r < 4:
-                    ops.append(["U", rng.pick("cgh"), rng.below(nkeys), rng.below(50)])
+                    ops.append(["U", rng.pick("cgh"), rng.below(nkeys), uval(rng)])
                 elif r < 7:
                     ops.append(["A", rng.pick([0, 1, max(tt - 1, 0), tt, tt + 1, 2 * tt])])
                 else:
@@ -196,12 +202,12 @@ class C12(Prop):
             ops = []
             if i % 4 == 3:
                 for _ in range(rng.range(3, 12)):
-                    ops.append(["U", rng.pick("cgh"), rng.below(nkeys), rng.below(50)] if rng.chance(1, 2) else ["R"])
+                    ops.append(["U", rng.pick("cgh"), rng.below(nkeys), uval(rng)] if rng.chance(1, 2) else ["R"])
                 rcases.append(dict(mask=mask, timeout=120000, naming=naming, ops=ops + [["R"]]))
             else:
                 for _ in range(rng.range(2, 4)):
                     for _ in range(rng.range(0, 3)):
-                        ops.append(["U", rng.pick("cgh"), rng.below(nkeys), rng.below(50)])
+                        ops.append(["U", rng.pick("cgh"), rng.below(nkeys), uval(rng)])
                     ops += [["R"], ["A", 450]]
                 rcases.append(dict(mask=mask, timeout=150, naming=naming, ops=ops + [["R"]]))
         return self._prom_eval(ctx, rcases, "promreal", real=True)
